@@ -547,6 +547,10 @@ pub struct ByteCompiler<'ctx> {
     ///
     /// Async functions and async generator functions, need to be closed and resolved.
     pub(crate) async_handler: Option<u32>,
+
+    /// Register that holds the value of a `return` statement while the `finally` blocks that the
+    /// return completion leaves are running (allocated on first use).
+    pub(crate) return_value_register: Option<u32>,
     json_parse: bool,
 
     /// Whether the function is in a `with` statement.
@@ -673,6 +677,7 @@ impl<'ctx> ByteCompiler<'ctx> {
             const_binding_cache: FxHashMap::default(),
             jump_info: Vec::new(),
             async_handler: None,
+            return_value_register: None,
             json_parse,
             variable_scope,
             lexical_scope,
@@ -883,6 +888,17 @@ impl<'ctx> ByteCompiler<'ctx> {
         self.register_allocator.dealloc(scratch);
         let index = self.get_or_insert_string(name);
         self.bytecode.emit_throw_mutate_immutable(index.into());
+    }
+
+    /// The register that holds the value of a pending `return` completion.
+    ///
+    /// NOTE: The value is kept in a register and not on the value stack, so that the value stack
+    ///       above the registers is empty between statements and exception handlers can cut it back.
+    pub(crate) fn return_value_register(&mut self) -> RegisterOperand {
+        let index = *self
+            .return_value_register
+            .get_or_insert_with(|| self.register_allocator.alloc_persistent().index());
+        index.into()
     }
 
     fn next_opcode_location(&mut self) -> Address {
